@@ -170,3 +170,44 @@ func TestWitnessAudioCutsGop(t *testing.T) {
 		t.Fatalf("cannot read the first video packet of segment 3: % x", first[:32])
 	}
 }
+
+// The SDP announces SPS/PPS pair A, the publisher sends pair B in band before
+// every IDR (published as RTP through the real depacketizer). The statement
+// asks for "a key frame preceded by SPS/PPS": every segment after the first
+// must start with an SPS and a PPS the stream has carried. Which pair is not
+// fixed - ipchub keeps the metadata pair (the first complete one, see ea42bf3
+// in /repo); what it does is logged as an observation.
+func TestWitnessInbandSetsOtherThanSprop(t *testing.T) {
+	a := repoParamSets[0]
+	c := &caseSpec{Stream: true, Rtp: true, Fragment: 1, Path: "/c10/witness-inband", SPS: b64hex(a[0]), PPS: b64hex(a[1]),
+		ASC: audioConfigs[0].asc, Rate: audioConfigs[0].rate, FlushAt: -1}
+	for g := int64(0); g < 4; g++ {
+		t0 := g * 135000 // GOPs of 1.5 s
+		c.Ops = append(c.Ops,
+			op{K: "v", Hdr: 0x67, PS: 2, PTS: t0, DTS: t0}, op{K: "v", Hdr: 0x68, PS: 2, PTS: t0, DTS: t0}, // pair B in band
+			op{K: "v", Hdr: 0x65, Size: 20, PTS: t0, DTS: t0})
+		if g >= 1 {
+			c.Ops = append(c.Ops, op{K: "sync", Back: int(g)})
+		}
+		c.Ops = append(c.Ops, op{K: "v", Hdr: 0x41, Size: 20, PTS: t0 + 99000, DTS: t0 + 99000})
+	}
+	c.Ops = append(c.Ops, op{K: "close"})
+	res, f := run(c, t.TempDir())
+	if res.infra != "" {
+		t.Skipf("infrastructure: %s", res.infra)
+	}
+	evid.Eval(1)
+	if f != nil {
+		evid.Violation(t, "witness/inband-sets/"+f.Check, c, "SDP announces SPS/PPS pair A, the publisher sends pair B in band before every IDR: %s", f.Msg)
+	}
+	if res.segments < 3 {
+		t.Fatalf("witness no longer completes three segments (%d)", res.segments)
+	}
+	if res.stalePairs > 0 {
+		evid.Class("witness:segments-start-with-the-SDP-pair-although-another-was-sent-in-band(observed)")
+		evid.Note("observed, not judged: SDP pair A, pair B in band before every IDR -> %d segments start with pair A (the metadata pair is kept after an in-band change)", res.stalePairs)
+		t.Logf("observation: %d segments start with the SDP's pair, not with the pair sent in band", res.stalePairs)
+	} else {
+		evid.Class("witness:segments-start-with-the-pair-sent-in-band(observed)")
+	}
+}
